@@ -179,6 +179,9 @@ func (r *MetricRegistry) RegisterDistribution(
 	}
 
 	// only add once
+	r.mu.Lock()
+	defer r.mu.Unlock()
+
 	if l, ok := r.registeredListeners[ID]; ok {
 		return l
 	}
@@ -202,6 +205,9 @@ func (r *MetricRegistry) RegisterTiming(
 	}
 
 	// only add once
+	r.mu.Lock()
+	defer r.mu.Unlock()
+
 	if l, ok := r.registeredListeners[ID]; ok {
 		return l
 	}
@@ -225,6 +231,9 @@ func (r *MetricRegistry) RegisterCount(
 	}
 
 	// only add once
+	r.mu.Lock()
+	defer r.mu.Unlock()
+
 	if l, ok := r.registeredListeners[ID]; ok {
 		return l
 	}
